@@ -70,6 +70,10 @@ def run(repo: Repo, rep: Report, tier: str) -> None:
     from . import c10 as _c10
     from ..core.report import Only as _Only3
     _c10._r10_3_semantic(repo, _Only3(rep, {"R10.3"}))
+    from ..core.report import Only as _OnlyX
+    from ..core import corpus as _corpusX
+    from . import c02 as _c02x
+    _c02x.run(repo, _OnlyX(rep, {"R02.1"}), tier)
 
 # --------------------------------------------------------------------------- R20.1
 
@@ -590,3 +594,6 @@ LEVEL_TEXT += _ADD8
 _ADD16 = ' R20.8: the skip guard of Instance.fields, evaluated over {no Field, init=False, init=True}.'
 EXPLANATION += _ADD16
 LEVEL_TEXT += _ADD16
+_ADD22 = ' Borrowed: R02.1 (defaults are rendered through the packers).'
+EXPLANATION += _ADD22
+LEVEL_TEXT += _ADD22
